@@ -17,6 +17,7 @@ import (
 	"github.com/zeromicro/go-zero/core/stores/cache"
 	"github.com/zeromicro/go-zero/core/stores/redis"
 	"github.com/zeromicro/go-zero/core/stores/sqlx"
+	"github.com/zeromicro/go-zero/core/syncx"
 	"github.com/zeromicro/go-zero/verifshim/vlib"
 	"github.com/zeromicro/go-zero/verifshim/vsched"
 )
@@ -80,6 +81,10 @@ type envT struct {
 	rds *redis.Redis
 	st  *cache.Stat
 
+	single  *backend          // the one-node store used by NewNode / NewNodeConn
+	cluster *backend          // two more miniredis instances behind cache.New (consistent-hash dispatch)
+	conf    cache.ClusterConf // configuration of the two-node cache cluster
+
 	mu     sync.Mutex
 	outage bool       // every data command answers with an error
 	cmds   []redisCmd // data commands received since the last reset
@@ -105,6 +110,18 @@ func initEnv() {
 		vlib.Fatal("park cleaner: %v", err)
 	}
 	e := &envT{mr: mr}
+	e.installHook(mr)
+	e.single = &backend{mrs: []*miniredis.Miniredis{mr}, ixActual: keyIx}
+	e.rds = redis.VerifNewNopBreaker(mr.Addr())
+	// warm the client (connection pool, handshake) outside any history / execution
+	if !e.rds.Ping() {
+		vlib.Fatal("cannot ping miniredis")
+	}
+	e.st = cache.NewStat("c06")
+	env = e
+}
+
+func (e *envT) installHook(mr *miniredis.Miniredis) {
 	mr.Server().SetPreHook(func(c *server.Peer, cmd string, args ...string) bool {
 		up := strings.ToUpper(cmd)
 		if !dataCmds[up] {
@@ -121,18 +138,110 @@ func initEnv() {
 		}
 		return false
 	})
-	e.rds = redis.VerifNewNopBreaker(mr.Addr())
-	// warm the client (connection pool, handshake) outside any history / execution
-	if !e.rds.Ping() {
-		vlib.Fatal("cannot ping miniredis")
+}
+
+// initCluster starts two more miniredis instances and picks the actual name of the index key so
+// that it lives on the other node than the primary key of row 1 (an Exec on row 1 then has to
+// invalidate on both nodes). Placement is decided by go-zero's consistent hash over the node
+// addresses, which differ from process to process, hence the probing.
+func (e *envT) initCluster() {
+	if e.cluster != nil {
+		return
 	}
-	e.st = cache.NewStat("c06")
-	env = e
+	b := &backend{}
+	for i := 0; i < 2; i++ {
+		mr, err := miniredis.Run()
+		if err != nil {
+			vlib.Fatal("miniredis: %v", err)
+		}
+		e.installHook(mr)
+		b.mrs = append(b.mrs, mr)
+		e.conf = append(e.conf, cache.NodeConf{RedisConf: redis.RedisConf{Host: mr.Addr(), Type: redis.NodeType, NonBlock: true}, Weight: 100})
+	}
+	c := cache.New(e.conf, syncx.NewSingleFlight(), e.st, errNodeNF)
+	nodeOf := func(key string) int {
+		if err := c.Set(key, 1); err != nil {
+			vlib.Fatal("cluster probe: %v", err)
+		}
+		for i, mr := range b.mrs {
+			if mr.Exists(key) {
+				return i
+			}
+		}
+		vlib.Fatal("cluster probe: key %s on no node", key)
+		return -1
+	}
+	p1 := nodeOf(keyP1)
+	for n := 0; ; n++ {
+		cand := keyIx
+		if n > 0 {
+			cand = fmt.Sprintf("%s~%d", keyIx, n)
+		}
+		if nodeOf(cand) != p1 {
+			b.ixActual = cand
+			break
+		}
+		if n > 200 {
+			vlib.Fatal("cluster probe: no index key name lands on the other node")
+		}
+	}
+	b.flush()
+	e.takeCmds()
+	e.cluster = b
+}
+
+// backend: the miniredis instance(s) behind one system under test. All oracles use the canonical
+// key names; only the index key may have a different actual name (cluster placement).
+type backend struct {
+	mrs      []*miniredis.Miniredis
+	ixActual string
+}
+
+func (b *backend) real(k string) string {
+	if k == keyIx {
+		return b.ixActual
+	}
+	return k
+}
+
+func (b *backend) flush() {
+	for _, mr := range b.mrs {
+		mr.FlushAll()
+	}
+}
+
+func (b *backend) fastForward(d time.Duration) {
+	for _, mr := range b.mrs {
+		mr.FastForward(d)
+	}
+}
+
+// contents lists every key of every node as canonical name, value, TTL (sorted); a key present
+// on two nodes appears twice.
+func (b *backend) contents() []kv {
+	var out []kv
+	for _, mr := range b.mrs {
+		for _, k := range mr.Keys() {
+			x := kv{key: k, typ: mr.Type(k), ttl: mr.TTL(k)}
+			if x.typ == "string" {
+				x.val, _ = mr.Get(k)
+			}
+			if k == b.ixActual {
+				x.key = keyIx
+			}
+			out = append(out, x)
+		}
+	}
+	sort.Slice(out, func(i, j int) bool { return out[i].key < out[j].key })
+	return out
 }
 
 // reset: empty store, no outage, empty command log, default jitter.
 func (e *envT) reset() {
-	e.mr.FlushAll()
+	e.single.flush()
+	if e.cluster != nil {
+		e.cluster.flush()
+	}
 	e.mu.Lock()
 	e.outage = false
 	e.cmds = nil
@@ -171,20 +280,6 @@ func setJitter(i int) {
 type kv struct {
 	key, val, typ string
 	ttl           time.Duration
-}
-
-func (e *envT) contents() []kv {
-	keys := e.mr.Keys()
-	sort.Strings(keys)
-	var out []kv
-	for _, k := range keys {
-		x := kv{key: k, typ: e.mr.Type(k), ttl: e.mr.TTL(k)}
-		if x.typ == "string" {
-			x.val, _ = e.mr.Get(k)
-		}
-		out = append(out, x)
-	}
-	return out
 }
 
 func dumpString(c []kv) string {
